@@ -44,6 +44,11 @@ def seeding_methods(prog: Program, C: ClassInfo) -> List[FuncInfo]:
             seen.add(name)
             if "idx" not in fi.params():
                 continue
+            if name.startswith("_") and not name.startswith("__") and prog.inliner is not None and any(
+                    callee == fi.qualname for _, callee in prog.inliner.inlined) and (fi.is_static or "seed" in fi.params()):
+                # a private helper that receives the seed as an argument and was inlined into its callers: the construction is
+                # judged where it is used (in the normal form of the caller), not on the helper's own parameters
+                continue
             fa = fa_of(prog, fi)
             if generator_constructions(fa):
                 res.append(fi)
